@@ -142,6 +142,7 @@ Definition sstep (cf : cfg) (sp : sstate) (e : ev) : sstate :=
   | EvInStart => {| ss_in := true; ss_n := ss_n sp; ss_rtmp := ss_rtmp sp; ss_flv := ss_flv sp |}
   | EvInStop =>
       if ss_in sp then {| ss_in := false; ss_n := ss_n sp; ss_rtmp := cspec_init; ss_flv := cspec_init |} else sp
+  | EvDispose => {| ss_in := false; ss_n := ss_n sp; ss_rtmp := cspec_init; ss_flv := cspec_init |}
   | _ => sp
   end.
 
@@ -175,7 +176,7 @@ Ltac split4 := split; [|split; [|split]].
 Lemma sstate_rel_step cf s sp e : sstate_rel cf s sp -> sstate_rel cf (step cf s e) (sstep cf sp e).
 Proof.
   intros (Hin & Hn & Hr & Hf).
-  destruct e as [m|k id|id| | |b| | |did]; cbn [step sstep].
+  destruct e as [m|k id|id| | |b| |v|pid|raw|]; cbn [step sstep].
   - destruct (Nat.eqb (length (rm_payload m)) 0) eqn:Hne.
     + unfold publish. rewrite Hne. unfold sstate_rel.
       cbn [g_in g_next g_rtmp_cache g_flv_cache ss_in ss_n ss_rtmp ss_flv]. split4; try assumption. congruence.
@@ -195,7 +196,10 @@ Proof.
   - unfold feed_ts, sstate_rel. cbn [g_in g_next g_rtmp_cache g_flv_cache]. split4; assumption.
   - unfold sstate_rel. cbn [g_in g_next g_rtmp_cache g_flv_cache]. split4; assumption.
   - unfold sstate_rel. cbn [g_in g_next g_rtmp_cache g_flv_cache]. split4; assumption.
-  - unfold sstate_rel. cbn [g_in g_next g_rtmp_cache g_flv_cache]. split4; assumption.
+  - unfold sstate_rel, set_subs. cbn [g_in g_next g_rtmp_cache g_flv_cache]. split4; assumption.
+  - unfold feed_rtp, sstate_rel. cbn [g_in g_next g_rtmp_cache g_flv_cache]. split4; assumption.
+  - unfold sstate_rel. cbn [g_in g_next g_rtmp_cache g_flv_cache ss_in ss_n ss_rtmp ss_flv].
+    split4; [reflexivity|assumption| |]; eapply cache_rel_clear; eassumption.
 Qed.
 
 Theorem caches_follow_history cf h : sstate_rel cf (run cf h) (srun cf h).
